@@ -28,8 +28,12 @@ def build():
                          'client.py derives SEND_QUEUE_LOW_WATERMARK / SEND_QUEUE_HARD_MAX as the harness assumes')],
     bounded=[Bounded('C07/native/event_sequences_cross_check', 'replay/relay_native.py',
                      ['--len', '5', '--random', '50', '--only', C07_IDS], ['--len', '6', '--random', '300', '--thorough', '--only', C07_IDS],
-                     "every enabled sequence of <= 5 (quick) / 6 (thorough) events over {arrival, self-metric, connection made / lost / failed, transport paused / resumed, timer round}, each with and without a final orderly stop, plus seeded random sequences up to 14 events, on the real factories and protocols (pickle and line) with a task.Clock reactor: 35 (quick) / 90 (thorough) configurations of MAX_QUEUE_SIZE in {1,2,3}, hard-limit and low-watermark fractions, MAX_DATAPOINTS_PER_MESSAGE in {1,2,500}, flow control, dynamic router, retry budget, connection-quality resets (USE_RATIO_RESET with a monitor that always asks for a reset)",
-                     "the history statement (accepted == written ++ queue over whole event sequences, delivery at quiescence, orderly stop) is an induction over events that is a meta-step of the per-operation contracts, not a discharged obligation; this runs it on CPython/Twisted for every short history")],
+                     "every enabled sequence of <= 5 (quick) / 6 (thorough) events over {arrival, self-metric, connection made / lost / failed, transport paused / resumed, timer round}, each with and without a final orderly stop, plus seeded random sequences up to 14 events, on the real factories and protocols (pickle and line) with a task.Clock reactor: 43 (quick) / 108 (thorough) configurations of MAX_QUEUE_SIZE in {1,2,3}, hard-limit and low-watermark fractions, MAX_DATAPOINTS_PER_MESSAGE in {1,2,500}, flow control, dynamic router, retry budget, connection-quality resets (USE_RATIO_RESET with a monitor that always asks for a reset)",
+                     "the history statement (accepted == written ++ queue over whole event sequences, delivery at quiescence, orderly stop) is an induction over events that is a meta-step of the per-operation contracts, not a discharged obligation; this runs it on CPython/Twisted for every short history"),
+             Bounded('C07/native/relay_manager_cross_check', 'replay/manager_native.py',
+                     ['--len', '3', '--random', '40'], ['--len', '4', '--random', '300', '--thorough'],
+                     "the relay as a whole: the real CarbonClientManager, client factories / protocols, ConsistentHashingRouter (replication factor 1) and the generated-metrics pipeline wired as carbon.service does, with 2 and 3 destinations on fake connectors, static and dynamic router, both client protocols, batch sizes 1 / 500: every enabled sequence of <= 3 (quick) / 4 (thorough) events over {arrival for one of two series, connection made / failed / lost per destination, timer round} plus 40 / 300 seeded random sequences of up to 16 events over six series per configuration; afterwards every destination is connected and all timers fire: each accepted datapoint was written to exactly one destination or is still queued or was counted as a drop",
+                     "CarbonClientManager / FakeClientFactory and the re-injection path through the pipeline are not under a discharged contract: the assumption 'a re-injected datapoint is not routed back to the destination being removed' is checked here on the real classes")],
     trusted_base=['A-ENGINE', 'A-SMT', 'A-TWISTED-DEFER', 'A-LIB(deque/list models)'],
     assumptions=[
       "A-TWISTED-DEFER: Deferred.callback runs the registered callbacks synchronously once, raises AlreadyCalledError when already called; callLater returns a DelayedCall that is active until it fires",
